@@ -648,7 +648,7 @@ pub fn check_case(ctx: &mut Ctx, case: &Case, cfg: &Cfg, props: &[String], want_
                                         for (k, l) in fin.lines.iter().enumerate() {
                                             // the line itself, or a child line of a line that has verbatim tokens
                                             let mut anc = l.parent.map(|p| p.0);
-                                            let mut under = mixed[k];
+                                            let mut under = false && mixed[k];
                                             let mut guard = 0;
                                             while let Some(x) = anc {
                                                 if touched[x] { under = true; break; }
